@@ -18,6 +18,8 @@ func init() {
 				{0, 1, -1, 0, 0, 0, 0}, {2, 3, 2, 0, 0, 3, 0}, {1, 2, 0, 2, 2, 1, 0}, {0, 0, 3, 1, 1, 2, 0}, {2, 19, -1, 0, 0, 5, 0}, {0, 20, -1, 0, 0, 19, 0},
 				{0, 12, 12, 3, 2, 20, 0}, {0, 1, -1, 10, 0, 5, 0}, {0, 1, -1, 10, 2, 5, 0}, {0, 2, 1, 0, 0, 0, 1}, {2, 2, 1, 1, 0, 7, 2}, {1, 3, 3, 0, 0, 4, 3},
 				{0, 0, -1, 0, 0, 5, 0}, {0, 0, 0, 0, 0, 5, 0}, {2, 0, -1, 0, 0, 5, 1},
+				// more digits than (prec/19+2) words hold: far-away digits still decide rounding and accuracy
+				{0, 39, -1, 0, 0, 1, 0},
 			}
 			if tier == "thorough" {
 				lits = append(lits, lit{0, 38, -1, 0, 0, 34, 0}, lit{0, 20, 20, 2, 1, 38, 0}, lit{2, 39, 1, 1, 2, 19, 0}, lit{0, 5, 34, 0, 0, 0, 0}, lit{0, 24, -1, 3, 0, 1, 0})
@@ -41,7 +43,7 @@ func init() {
 			return jobs
 		},
 		Bounds: map[string]string{
-			"quick":    "base-10 literals from 15 templates [sign] int-digits [. frac-digits] [e [sign] exp-digits] with up to 24 significand digits (crossing the 19-digit word boundary), exponents of 1-3 digits and 10-digit exponents beyond the int32 range (must be rejected), through Parse, SetString, UnmarshalText and ParseDecimal, receiver precision {0,1,2,3,4,5,7,19,20}: every digit symbolic, value == roundRef(exact) with truthful accuracy, precision 0 -> 34. Arbitrary ASCII strings of every length 0..3 with base argument 0, 2, 8, 10, 16 (all 128^L contents symbolic): no panic, error => nil result, accepted exactly when the documented grammar (specAccepts) accepts, detected base as specified.",
+			"quick":    "base-10 literals from 15 templates [sign] int-digits [. frac-digits] [e [sign] exp-digits] with up to 24 significand digits (crossing the 19-digit word boundary) and one 39-digit template at precision 1, exponents of 1-3 digits and 10-digit exponents beyond the int32 range (must be rejected), through Parse, SetString, UnmarshalText and ParseDecimal, receiver precision {0,1,2,3,4,5,7,19,20}: every digit symbolic, value == roundRef(exact) with truthful accuracy, precision 0 -> 34. Arbitrary ASCII strings of every length 0..3 with base argument 0, 2, 8, 10, 16 (all 128^L contents symbolic): no panic, error => nil result, accepted exactly when the documented grammar (specAccepts) accepts, detected base as specified.",
 			"thorough": "literals up to 40 digits; arbitrary strings of length 4 for base 0 and 10.",
 		},
 		Outside: []string{
